@@ -1157,6 +1157,15 @@ class Engine(object):
             ok, sv = self.concrete(step)
             if ok and sv == -1 and lo is None and hi is None and isinstance(base, VRef) and isinstance(st.heap[base.loc], HPyList):
                 return st.alloc(HPyList(list(reversed(st.heap[base.loc].items))))
+            if ok and sv == -1 and lo is None and hi is None:
+                try:
+                    sq, el = self.seq_of(base, st)
+                except Undecided:
+                    sq = None
+                if sq is not None:
+                    r = self.model_app('py_reverse_%s' % el[0], [sq], sq.sort)
+                    st.assume(Eq(Len(r), Len(sq)))
+                    return VSeq(r, el) if self.pure else st.alloc(HList(r, el))
             raise Undecided('slice step', node)
         lo_t, hi_t = self._opt_int(lo), self._opt_int(hi)
         from .executor import VRecList
